@@ -145,7 +145,7 @@ func genC04(t *rapid.T) C04Case {
 		MaxArity: rapid.IntRange(2, arityMax(5, 8)).Draw(t, "maxarity"),
 		Failing:  rapid.Bool().Draw(t, "failing"),
 		BadVars:  rapid.Bool().Draw(t, "badvars"),
-		Custom:   true, Consts: true, Aliases: true, BoolW: 8,
+		Custom:   true, Consts: true, Aliases: true, BoolW: 8, VarW: 14,
 	}}
 	tree := wrapRoot(g.Expr(rootTy(t), g.Depth))
 	fixEmptyLists(tree)
